@@ -25,6 +25,9 @@ const char* __asan_default_options(void) { return "detect_leaks=0"; }   /* leaks
 static FILE* trace = NULL;
 static int fail = 0; static char fail_info[600];
 static long n_steps = 0, n_apicalls = 0, n_frames = 0, n_preempt = 0, n_cb_api = 0, n_scen = 0;
+/* C18 accounting oracle on the threaded server (public API only): the reported number of open connections is never
+ * negative, never above the number of live sockets (accepted or pending), and zero after CS104_Slave_stop */
+static int acct_fail = 0; static char acct_info[400]; static int acct_mode = 0; static long n_acct = 0;
 static void note_fail(const char* what) { if (!fail) snprintf(fail_info, sizeof fail_info, "%s", what); fail++; }
 static bool check_flags(const char* where)
 {
@@ -98,6 +101,7 @@ static bool server_scenario(bool thorough)
     if (mode == 1) { CS104_RedundancyGroup g = CS104_RedundancyGroup_create("a"); CS104_RedundancyGroup_addAllowedClient(g, "10.0.0.1"); CS104_Slave_addRedundancyGroup(slave, g); CS104_Slave_addRedundancyGroup(slave, CS104_RedundancyGroup_create("all")); }
     CS104_Slave_setMaxOpenConnections(slave, prng_range(1, 5));
     tr("server mode=%d", mode);
+    int n_restarts = 0;
     CS104_Slave_start(slave);
     if (!check_flags("CS104_Slave_start")) return false;
     int len = thorough ? 900 : 260;
@@ -114,11 +118,14 @@ static bool server_scenario(bool thorough)
             else if (x < 81) { feed_u(p, 0x13); tr("stopdt"); }
             else if (x < 84) { feed_u(p, 0x43); tr("testfr"); }
             else if (x < 91) { n_apicalls++; CS101_ASDU a = CS101_ASDU_create(alp, false, CS101_COT_SPONTANEOUS, 0, 1, false, false); uint8_t pl[4] = { (uint8_t) i, 0, 0, 1 }; CS101_ASDU_setTypeID(a, M_SP_NA_1); CS101_ASDU_addPayload(a, pl, 4); CS104_Slave_enqueueASDU(slave, a); CS101_ASDU_destroy(a); tr("enqueue"); }
-            else if (x < 93) { n_apicalls++; CS104_Slave_getOpenConnections(slave); CS104_Slave_getNumberOfQueueEntries(slave, NULL); CS104_Slave_isRunning(slave); tr("query"); }
+            else if (x < 93) { n_apicalls++; int oc = CS104_Slave_getOpenConnections(slave); CS104_Slave_getNumberOfQueueEntries(slave, NULL); CS104_Slave_isRunning(slave); tr("query oc=%d", oc); n_acct++;
+                if ((oc < 0 || oc > sim_live_sockets) && !acct_fail++) snprintf(acct_info, sizeof acct_info, "scenario %ld step %d: CS104_Slave_getOpenConnections() = %d with %d sockets alive (accepted or still pending; restarts so far in this scenario: %d)", n_scen, i, oc, sim_live_sockets, n_restarts); }
             else if (x < 96) { sim_advance(prng_below(3) ? prng_range(0, 900) : prng_range(1000, 7000)); tr("advance"); }
             else if (x < 98) { sim_peer_close(p->s); tr("peerclose"); }
-            else if (x < 99) { p->s->write_fail = true; tr("wfail"); }
-            else { n_apicalls++; tr("stop/start"); CS104_Slave_stop(slave); if (!check_flags("CS104_Slave_stop")) return false; for (int j = 0; j < n_peers; j++) peers[j].s = NULL; n_peers = 0; CS104_Slave_start(slave); }
+            else if (x >= 99 || (acct_mode && prng_below(2))) { n_apicalls++; tr("stop/start"); CS104_Slave_stop(slave); if (!check_flags("CS104_Slave_stop")) return false; for (int j = 0; j < n_peers; j++) peers[j].s = NULL; n_peers = 0;
+                { int oc = CS104_Slave_getOpenConnections(slave); n_acct++; if (oc != 0 && !acct_fail++) snprintf(acct_info, sizeof acct_info, "scenario %ld step %d: CS104_Slave_getOpenConnections() = %d right after CS104_Slave_stop", n_scen, i, oc); }
+                n_restarts++; CS104_Slave_start(slave); }
+            else { p->s->write_fail = true; tr("wfail"); }
         }
         if (!check_flags("server traffic")) return false;
     }
@@ -183,6 +190,14 @@ int main(int argc, char** argv)
         else if (!strcmp(argv[1], "finding-server-open")) { mode_cb = 2; for (int i = 0; i < 60 && ok; i++) ok = server_scenario(false); }
         else if (!strcmp(argv[1], "finding-client")) { cli_cb = 1; for (int i = 0; i < 40 && ok; i++) ok = client_scenario(false); }
         printf("FINDING %s reproduced=%d %s\n", argv[1], ok ? 0 : 1, ok ? "" : fail_info);
+        return 0;
+    }
+    if (!strncmp(argv[1], "acct", 4)) {
+        /* C18: server scenarios only, more restarts, the accounting oracle decides */
+        acct_mode = 1; bool th = !strcmp(argv[1], "acct-thorough"); bool ok = true;
+        for (int i = 0; i < (th ? 300 : 60) && ok && !acct_fail; i++) ok = server_scenario(th);
+        if (acct_fail) printf("ACCT_FAIL (seed %llu) %s\n", (unsigned long long) seed_from_env(), acct_info);
+        printf("ACCT scenarios=%ld accounting_checks=%ld thread_steps=%ld\n", n_scen, n_acct, n_steps);
         return 0;
     }
     bool thorough = !strcmp(argv[1], "thorough");
